@@ -586,6 +586,20 @@ func (w *Writer) WriteCompressed(refs []Reference, objects ...Object) error {
 		return nil
 	}
 
+	// The reader accepts at most maxObjStmObjects objects per object stream:
+	// longer lists are split over several object streams.
+	for len(objects) > maxObjStmObjects {
+		err := w.writeObjStm(refs[:maxObjStmObjects], objects[:maxObjStmObjects])
+		if err != nil {
+			return err
+		}
+		refs, objects = refs[maxObjStmObjects:], objects[maxObjStmObjects:]
+	}
+	return w.writeObjStm(refs, objects)
+}
+
+// writeObjStm writes a non-empty list of objects as one object stream.
+func (w *Writer) writeObjStm(refs []Reference, objects []Object) error {
 	sRef := w.Alloc()
 	for i, ref := range refs {
 		err := w.setXRef(ref, &xRefEntry{InStream: sRef, Pos: int64(i)})
